@@ -74,6 +74,11 @@ type SchedSpec struct {
 	Order  []int    `json:"order,omitempty"`
 	K      []int    `json:"k,omitempty"`
 	Segs   [][2]int `json:"segs,omitempty"` // segments: (process, number of steps), then round robin
+	// "ops" strategy: OpSegs are (process, number of whole operations) segments; Pre are
+	// pre-emptions (process, operation index, yields into that operation, other process,
+	// whole operations the other process runs before the pre-empted one resumes)
+	OpSegs [][2]int `json:"op_segs,omitempty"`
+	Pre    [][5]int `json:"pre,omitempty"`
 }
 
 type Case struct {
@@ -882,9 +887,93 @@ func (s *segmentStrategy) pick(e *engine, r []*verifvfs.Proc) *verifvfs.Proc {
 	return r[0]
 }
 
+// opsStrategy schedules whole operations, with a few pre-emptions placed inside chosen
+// operations: most defects need only one or two context switches at the right place, and
+// aligning everything else to operation boundaries shrinks the space enormously.
+type opsStrategy struct {
+	segs    [][2]int
+	pre     [][5]int
+	i       int
+	segBase int // operations the segment's process had completed when the segment started
+	started bool
+	preDone []bool
+	inPre   int // index of the active pre-emption, -1 if none
+	preBase int
+}
+
+func (e *engine) opsDone(p int) int {
+	n := 0
+	for _, o := range e.ops[p] {
+		if o.ended {
+			n++
+		}
+	}
+	return n
+}
+
+func (s *opsStrategy) pick(e *engine, r []*verifvfs.Proc) *verifvfs.Proc {
+	find := func(id int) *verifvfs.Proc {
+		for _, p := range r {
+			if p.ID == id {
+				return p
+			}
+		}
+		return nil
+	}
+	if s.preDone == nil {
+		s.preDone = make([]bool, len(s.pre))
+		s.inPre = -1
+	}
+	// an active pre-emption: the other process runs whole operations
+	if s.inPre >= 0 {
+		pr := s.pre[s.inPre]
+		if q := find(pr[3]); q != nil && e.opsDone(pr[3]) < s.preBase+pr[4] {
+			return q
+		}
+		s.inPre = -1
+	}
+	for s.i < len(s.segs) {
+		seg := s.segs[s.i]
+		p := find(seg[0])
+		if p == nil || seg[0] >= len(e.ops) {
+			s.i++
+			s.started = false
+			continue
+		}
+		if !s.started {
+			s.segBase = e.opsDone(seg[0])
+			s.started = true
+		}
+		if e.opsDone(seg[0]) >= s.segBase+seg[1] {
+			s.i++
+			s.started = false
+			continue
+		}
+		// does a pre-emption apply right now?
+		for j, pr := range s.pre {
+			if s.preDone[j] || pr[0] != seg[0] || pr[3] == pr[0] || pr[3] >= len(e.ops) {
+				continue
+			}
+			cur := e.cur[pr[0]]
+			if cur != nil && cur.index == pr[1] && cur.fsSteps >= pr[2] {
+				s.preDone[j] = true
+				if q := find(pr[3]); q != nil {
+					s.inPre = j
+					s.preBase = e.opsDone(pr[3])
+					return q
+				}
+			}
+		}
+		return p
+	}
+	return r[0]
+}
+
 func (e *engine) strategy() strategy {
 	sp := e.c.Sched
 	switch sp.Kind {
+	case "ops":
+		return &opsStrategy{segs: sp.OpSegs, pre: sp.Pre}
 	case "segments":
 		return &segmentStrategy{segs: sp.Segs}
 	case "pct":
